@@ -35,7 +35,7 @@ func nodeText(fset *token.FileSet, n ast.Node) string {
 }
 
 // isDoneRecv: a receive that fires on cancellation or shutdown: `<-x.Done()`, or a receive from a channel
-// whose name says so (done, cancelled, interrupt, shutdownCh, terminate ...)
+// whose name says so (done, cancelled, interrupt, shutdownCh, terminate, gone ...)
 func isDoneRecv(e ast.Expr) bool {
 	u, ok := e.(*ast.UnaryExpr)
 	if !ok || u.Op != token.ARROW {
@@ -53,7 +53,7 @@ func isDoneRecv(e ast.Expr) bool {
 		name = x.Name
 	}
 	name = strings.ToLower(name)
-	for _, w := range []string{"done", "cancel", "interrupt", "shutdown", "terminat"} {
+	for _, w := range []string{"done", "cancel", "interrupt", "shutdown", "terminat", "gone"} {
 		if strings.Contains(name, w) {
 			return true
 		}
